@@ -239,6 +239,7 @@ def showObs : ThreadObs → String
   | .none => "-"
   | .mode m => m.toString
   | .dec r => (showOutDec r).replace " " ","
+  | .probe rs => ",".intercalate (rs.map fun r => match r with | .ok d => toString d.coeff | .panic k => "panic:" ++ k.toString)
 
 /-- `threads` request: ops separated by `;`: `s<t>:<mode>`, `g<t>`, `r<t>:<c>:<p>:<n>` -/
 def parseThreadOp (s : String) : Option ThreadOp :=
@@ -247,6 +248,7 @@ def parseThreadOp (s : String) : Option ThreadOp :=
   match kind.toString, rest with
   | "s", [t, m] => (Mode.ofString? m).map fun m => ThreadOp.set (parseNat t) m
   | "g", [t] => some (ThreadOp.get (parseNat t))
+  | "p", [t] => some (ThreadOp.probe (parseNat t))
   | "r", [t, c, p, n] => some (ThreadOp.round (parseNat t) (parseInt c) (parseNat p) (parseInt n))
   | _, _ => none
 
@@ -260,6 +262,9 @@ def specSchedule (ops : List ThreadOp) : List String :=
     | .round t c p n :: r =>
       let m := (hist.find? (fun e => e.1 = t)).map (·.2) |>.getD Mode.heven
       ((expOp (Spec.round m c p n)).replace " " ",") :: go hist r
+    | .probe t :: r =>
+      let m := (hist.find? (fun e => e.1 = t)).map (·.2) |>.getD Mode.heven
+      (",".intercalate ([15, 25, -15, 21, 5].map fun (c : Int) => toString (Spec.specRound m c 10))) :: go hist r
   go [] ops
 
 def handleNt (ctx : Ctx) (toks : List String) : String × String × String :=
